@@ -117,6 +117,82 @@ theorem C12_set_sorted (gs : List Glob) (p : Bytes) : (setMatches gs p).Pairwise
   · simp
   · exact strict_dedupAdj _ (sorted_sortNat _)
 
+/-- the pushes of any arrangement of the seven strategies have the same members -/
+theorem mem_pushesIn (s : GlobSet) (order : List StratKind) (h : order.Perm allStrats) (c : Candidate) (j : Nat) :
+    j ∈ s.pushesIn order c ↔ j ∈ s.pushes c := by
+  unfold GlobSet.pushesIn
+  rw [List.mem_flatMap]
+  have hmem : ∀ k, k ∈ order ↔ k ∈ allStrats := fun k => h.mem_iff
+  constructor
+  · rintro ⟨k, _, hj⟩
+    cases k <;> simp only [GlobSet.hitsOf] at hj <;> simp [GlobSet.pushes, hj]
+  · intro hj
+    simp only [GlobSet.pushes, List.mem_append] at hj
+    rcases hj with (((((hj | hj) | hj) | hj) | hj) | hj) | hj
+    · exact ⟨.extension, (hmem _).mpr (by decide), hj⟩
+    · exact ⟨.basenameLiteral, (hmem _).mpr (by decide), hj⟩
+    · exact ⟨.literal, (hmem _).mpr (by decide), hj⟩
+    · exact ⟨.suffix, (hmem _).mpr (by decide), hj⟩
+    · exact ⟨.pfx, (hmem _).mpr (by decide), hj⟩
+    · exact ⟨.requiredExtension, (hmem _).mpr (by decide), hj⟩
+    · exact ⟨.regex, (hmem _).mpr (by decide), hj⟩
+
+/-- **The order of the strategies in `GlobSet.strats` is not observable**: for ANY arrangement of the seven
+strategies the set returns the increasing list of the indices of the globs that match individually (all sets,
+all paths outside the dots class). -/
+theorem C12_set_any_order (order : List StratKind) (h : order.Perm allStrats) (gs : List Glob) (p : Bytes)
+    (hd : lastCompDots p = false) :
+    (GlobSet.new gs).matchesCandidateIn order (candidate p) = (List.range gs.length).filter (matchAt gs p) := by
+  rw [← C12_set gs p hd]
+  unfold setMatches GlobSet.matchesCandidateIn GlobSet.matchesCandidate
+  split
+  · rfl
+  · apply strict_ext (strict_dedupAdj _ (sorted_sortNat _)) (strict_dedupAdj _ (sorted_sortNat _))
+    intro y
+    rw [mem_dedupAdj, mem_sortNat, mem_dedupAdj, mem_sortNat, mem_pushesIn _ order h]
+
+/-- `is_match` likewise: for any arrangement, it is true exactly when some glob of the set matches -/
+theorem C12_is_match_any_order (order : List StratKind) (h : order.Perm allStrats) (gs : List Glob) (p : Bytes)
+    (hd : lastCompDots p = false) :
+    (GlobSet.new gs).isMatchIn order (candidate p) = (List.range gs.length).any (matchAt gs p) := by
+  have hset := C12_set_any_order order h gs p hd
+  unfold GlobSet.matchesCandidateIn at hset
+  unfold GlobSet.isMatchIn
+  split
+  · rename_i h0
+    rw [if_pos h0] at hset
+    cases hany : (List.range gs.length).any (matchAt gs p) with
+    | false => rfl
+    | true =>
+      obtain ⟨y, hy, hm⟩ := List.any_eq_true.mp hany
+      have : y ∈ (List.range gs.length).filter (matchAt gs p) := List.mem_filter.mpr ⟨hy, hm⟩
+      rw [← hset] at this
+      simp at this
+  · rename_i h0
+    rw [if_neg h0] at hset
+    apply Bool.eq_iff_iff.mpr
+    constructor
+    · intro ha
+      obtain ⟨k, hk, hne⟩ := List.any_eq_true.mp ha
+      obtain ⟨y, hy⟩ : ∃ y, y ∈ (GlobSet.new gs).hitsOf (candidate p) k := by
+        cases hl : (GlobSet.new gs).hitsOf (candidate p) k with
+        | nil => simp [hl] at hne
+        | cons y _ => exact ⟨y, by simp⟩
+      have hin : y ∈ (GlobSet.new gs).pushesIn order (candidate p) := List.mem_flatMap.mpr ⟨k, hk, hy⟩
+      have : y ∈ dedupAdj (sortNat ((GlobSet.new gs).pushesIn order (candidate p))) := by
+        rw [mem_dedupAdj, mem_sortNat]; exact hin
+      rw [hset, List.mem_filter] at this
+      exact List.any_eq_true.mpr ⟨y, this.1, this.2⟩
+    · intro ha
+      obtain ⟨y, hy, hm⟩ := List.any_eq_true.mp ha
+      have : y ∈ (List.range gs.length).filter (matchAt gs p) := List.mem_filter.mpr ⟨hy, hm⟩
+      rw [← hset, mem_dedupAdj, mem_sortNat] at this
+      obtain ⟨k, hk, hyk⟩ := List.mem_flatMap.mp this
+      refine List.any_eq_true.mpr ⟨k, hk, ?_⟩
+      cases hl : (GlobSet.new gs).hitsOf (candidate p) k with
+      | nil => simp [hl] at hyk
+      | cons _ _ => rfl
+
 def C12_set_full : Prop :=
   ∀ (gs : List Glob) (p : Bytes), setMatches gs p = (List.range gs.length).filter (matchAt gs p)
 
